@@ -1,7 +1,7 @@
 (* C07 — retained store keeps the last non-empty retained publish; sent on subscribe. *)
 From Coq Require Import List NArith Bool.
 Import ListNotations.
-From VMQ Require Import model.Trie model.Match proofs.TrieProofs proofs.TrieHistory.
+From VMQ Require Import model.Trie model.Match proofs.TrieProofs proofs.TrieHistory proofs.TrieRetained.
 Open Scope N_scope.
 
 (* at most one retained message per topic node, by construction of the tree *)
@@ -29,9 +29,26 @@ Theorem C07_retain_preserves_all_subs : forall p m e n, wf n ->
 Proof. exact retain_spec. Qed.
 Print Assumptions C07_retain_preserves_all_subs.
 
-(* The remaining full statement - the filter-driven retained walk returns exactly the unexpired retained
-   messages whose topics match the filter - is NOT proved (partial); it is checked on every generated
-   history by the correspondence run (model vs both providers vs the specification spec_retained). *)
+(* THE STORE after any history is the specification's map: per topic the most recent retained publish
+   with a non-empty payload, nothing for a topic whose last retained publish had an empty payload
+   (Match.abs_rets), one entry per topic at most *)
+Theorem C07_store_after_history : forall h,
+  (forall q m, In (q, m) (trets (run h)) <-> In (q, m) (abs_rets h)) /\ NoDup (map fst (abs_rets h)).
+Proof. intros h. split; [apply (run_relR h) | apply abs_rets_nodup; constructor]. Qed.
+Print Assumptions C07_store_after_history.
+
+(* WHAT A SUBSCRIPTION IS SENT: after any history whose retained publishes name wildcard-free topics, for
+   every filter with '#' only as its last level (any depth, '+', '$' levels, empty levels), the retained
+   walk of both providers returns exactly the unexpired retained messages of the store whose topics match
+   the filter under the rules of Match.v *)
+Theorem C07_retained_walk_full : forall h f, valid_history h -> vfilter (split f) = true ->
+  forall m, In m (ret_search_top (split f) (run h)) <->
+            exists t, In (t, m) (abs_rets h) /\ m_expired m = false /\ matches (split f) t = true.
+Proof. exact retained_walk_history. Qed.
+Print Assumptions C07_retained_walk_full.
+
+(* Retain Handling (send always / only for a new subscription / never) and RETAIN=1 on what is sent are
+   the correspondence check's and C08's; message expiry enters as a flag on the stored message. *)
 
 Example C07_nonvacuous :
   let h := [ORetain [97;47;98] (mkMsg 1 1 false) false; ORetain [36;115;47;120] (mkMsg 2 1 false) false;
